@@ -17,6 +17,11 @@
 // same fixture; offered only when the reuse was observed), TR<code>:<k>:<dt> calls it with an in-flight response of
 // attempt k delivered inside its reset of the upstream request (between the claim of the response slot and the local
 // reply). The return values are printed as tm=<0|1>,… . W is idle time (one grid step, no event).
+// Late response during the back-off (proxy6): PL<k>:<dt> lets the per-try timer of attempt k fire (as PT) and delivers a
+// response of attempt k that was in flight when the proxy reset it (px RespondInFlight) a few milliseconds later, i.e.
+// while the worker sleeps in doRetry's 10 ms back-off; XL<k>:<reason>:<dt> does the same after an upstream reset of
+// attempt k (the reset is retried when the policy allows it). Whether the frame really hit the sleep cannot be observed
+// from outside; on code that ignores such a frame the outcome is the same either way.
 package dsx
 
 import (
@@ -38,6 +43,7 @@ const (
 	actBudget     = 40 * time.Millisecond // an action and its settle must end this long before the next deadline
 	timerMargin   = 8 * time.Millisecond  // sleep this long past a deadline before looking
 	timerGap      = 48 * time.Millisecond // two deadlines closer than this are not driven
+	backoffAt     = 4 * time.Millisecond  // how long after the reset of an attempt a late frame of it is delivered (doRetry sleeps 10 ms)
 )
 
 // Cfg mirrors Model.Downstream.Cfg plus the ambient load.
@@ -338,6 +344,9 @@ func Run(c Cfg, choose Chooser, maxLabels int) Result {
 						opts = append(opts, fmt.Sprintf("B%d:200:10", a.Index), fmt.Sprintf("B%d:200:01", a.Index), fmt.Sprintf("B%d:200:11", a.Index),
 							fmt.Sprintf("B%d:503:10", a.Index))
 					}
+					if !c.OneWay && a.Live() && !streamed[a.Index] && (c.RetryOn || c.N > 0) { // reset + a frame of the attempt still in flight
+						opts = append(opts, fmt.Sprintf("XL%d:%s:10", a.Index, types.StreamConnectionFailed), fmt.Sprintf("XL%d:%s:00", a.Index, types.StreamConnectionTermination))
+					}
 					if !c.OneWay && a.Live() && streamed[a.Index] && ex.Held() { // the streamed body ends
 						opts = append(opts, fmt.Sprintf("E%d", a.Index))
 					}
@@ -371,6 +380,9 @@ func Run(c Cfg, choose Chooser, maxLabels int) Result {
 			// timer labels: only the earliest deadline, and only when the other one is far enough
 			if hasPT && (!hasGT || pt+timerGap < gt) {
 				opts = append(opts, "PT")
+				if ptIdx0 >= 0 && !streamed[ptIdx0] && ex.UpstreamAttempts()[ptIdx0].Live() {
+					opts = append(opts, fmt.Sprintf("PL%d:10", ptIdx0), fmt.Sprintf("PL%d:01", ptIdx0))
+				}
 			} else if hasGT && !c.LongGlobal && (!hasPT || gt+timerGap < pt) {
 				opts = append(opts, "GT")
 			}
@@ -407,6 +419,34 @@ func Run(c Cfg, choose Chooser, maxLabels int) Result {
 		case lb == "HG":
 			f.HostsDown("c")
 			continue
+		case strings.HasPrefix(lb, "PL"):
+			var k int
+			var dt string
+			fmt.Sscanf(strings.ReplaceAll(lb[2:], ":", " "), "%d %s", &k, &dt)
+			a := ex.UpstreamAttempts()[k]
+			pt, _, _, _ := deadlines()
+			ptConsumedFor = k
+			if r := pt + backoffAt - ex.Elapsed(); r > 0 {
+				plannedSleep = r
+			}
+			ex.SleepUntil(pt)
+			// the timer callback resets the attempt; the worker then handles the reset within microseconds and sleeps
+			for i := 0; i < 40 && a.Live(); i++ {
+				time.Sleep(250 * time.Microsecond)
+			}
+			time.Sleep(backoffAt)
+			rh, rb, rt := px.AnswerOf(k, dt[0] == '1', dt[1] == '1')
+			a.RespondInFlight(rh, rb, rt)
+		case strings.HasPrefix(lb, "XL"):
+			p := strings.SplitN(lb[2:], ":", 3)
+			var k int
+			fmt.Sscan(p[0], &k)
+			a := ex.UpstreamAttempts()[k]
+			a.Reset(p[1])
+			time.Sleep(backoffAt)
+			plannedSleep = backoffAt
+			rh, rb, rt := px.AnswerOf(k, p[2][0] == '1', p[2][1] == '1')
+			a.RespondInFlight(rh, rb, rt)
 		case lb == "PT" || lb == "GT":
 			pt, gt, _, _ := deadlines()
 			d := pt
@@ -507,13 +547,13 @@ func Run(c Cfg, choose Chooser, maxLabels int) Result {
 			}
 			// the per-try deadline pending before the label passed during it and MOSN reset that attempt: the timer
 			// fired inside the action or its settle (scheduler stall), not at a PT label
-			if hasPT0 && lb != "PT" && pt0 <= now+2*time.Millisecond && strings.Contains(","+Canon(ex.Trace())+",", fmt.Sprintf(",ur:%d,", ptIdx0)) {
+			if hasPT0 && lb != "PT" && !strings.HasPrefix(lb, "PL") && pt0 <= now+2*time.Millisecond && strings.Contains(","+Canon(ex.Trace())+",", fmt.Sprintf(",ur:%d,", ptIdx0)) {
 				res.Skewed = true
 				break
 			}
 			// a PT label fires the per-try timer of attempt ptIdx0 only: a reset of a later attempt right after it means
 			// the next attempt's timer fired inside this label as well (the label took longer than a per-try timeout)
-			if hasPT0 && lb == "PT" {
+			if hasPT0 && (lb == "PT" || strings.HasPrefix(lb, "PL")) {
 				late := false
 				for _, tk := range strings.Split(Canon(ex.Trace()), ",") {
 					var k int
